@@ -70,7 +70,7 @@ pub fn check(c: &RsData) -> Verdict {
 }
 
 pub fn g_rs_data() -> BoxedStrategy<RsData> {
-    (any::<u16>(), any::<u16>(), vec(any::<u8>(), 1558), vec(any::<u16>(), 0..6))
+    (any::<u16>(), any::<u16>(), crate::gens::g_blob(1558), vec(any::<u16>(), 0..6))
         .prop_map(|(s, k, bytes, sparse)| {
             let sym = pick(s, 48);
             let n = SYMBOLS[sym].data;
